@@ -180,6 +180,7 @@ type Result struct {
 	Zero    bool     `json:"zero,omitempty"`
 	Slice   bool     `json:"sl,omitempty"`  // result type is []T (group decorators, flatten)
 	SlT     string   `json:"slt,omitempty"` // slice-typed result declared with a named slice type (variant "A" / "B")
+	Rep     bool     `json:"rep,omitempty"` // slice-typed result: every element is the same value (equal members are still N members)
 	Obj     []Result `json:"obj,omitempty"`
 	EmbedAt int      `json:"embedat,omitempty"` // position of the embedded dig.Out among the fields (0 = first)
 	IsObj   bool     `json:"isobj,omitempty"`
